@@ -154,6 +154,14 @@ func (m absModule) apply(w *world.World) {
 		if dec := fmt.Sprintf("TDX_%02d", p.TeeTcb[1]); dec != id {
 			w.Tcb.Mods = append(w.Tcb.Mods, world.ModIdent{ID: dec, Levels: []world.IsvLevel{{Isv: 0, Status: "UpToDate"}}})
 		}
+		// near-misses of the id's spelling: no prefix, unpadded, radix prefix, decorated
+		v := p.TeeTcb[1]
+		for _, alt := range []string{fmt.Sprintf("%02x", v), fmt.Sprintf("%x", v), fmt.Sprintf("TDX_%x", v), fmt.Sprintf("TDX_0x%02x", v), fmt.Sprintf("TDX_%03x", v), fmt.Sprintf(" TDX_%02x", v),
+			fmt.Sprintf("TDX_%02x ", v), fmt.Sprintf("TDX_%02x_", v), fmt.Sprintf("XTDX_%02x", v), fmt.Sprintf("TDX-%02x", v), fmt.Sprintf("TDX_%02x\n", v), fmt.Sprintf("TDX_+%x", v), fmt.Sprintf("TDX_%d.0", v)} {
+			if alt != id && !strings.EqualFold(alt, id) {
+				w.Tcb.Mods = append(w.Tcb.Mods, world.ModIdent{ID: alt, Levels: []world.IsvLevel{{Isv: 0, Status: "UpToDate"}}})
+			}
+		}
 	case "level-without-status": // the matching module level carries no tcbStatus member: not UpToDate
 		w.Tcb.Mods = []world.ModIdent{{ID: id, Levels: []world.IsvLevel{{Isv: uint32(p.TeeTcb[0]), NoStatus: true}, {Isv: 0, Status: "UpToDate"}}}}
 	case "levels":
@@ -238,7 +246,12 @@ func c04Base(r *mrand.Rand) [3]*world.World {
 		if k == 2 { // versions whose hexadecimal and decimal renderings differ
 			pp.TeeTcb[1] = []byte{0x0a, 0x10, 0x1f, 0x63, 0xff}[r.Intn(5)]
 		}
-		out[k] = world.Honest(r, world.HonestOpts{Shape: world.QuoteShape{AuthLen: 32}, Platform: &pp})
+		var ext func(p *world.Platform) []byte
+		if k == 1 { // this base world's PCK certificate lists its SGX extension elements in a shuffled order
+			seed := r.Int63()
+			ext = func(p *world.Platform) []byte { return permutedSgxExtension(p, mrand.New(mrand.NewSource(seed))) }
+		}
+		out[k] = world.Honest(r, world.HonestOpts{Shape: world.QuoteShape{AuthLen: 32}, Platform: &pp, SgxExt: ext})
 	}
 	return out
 }
